@@ -560,4 +560,85 @@ theorem inv_empty : Inv H.empty :=
 
 theorem rel_empty : Rel H.empty PS.empty := ⟨rfl, rfl, rfl⟩
 
+
+/-! ### a Write in flight while other operations run -/
+
+theorem prun_nested : ∀ (mid : List Op) (d : Nat) (pre : List Bytes) (x : Bytes) (rest : List Bytes) (l : List Bytes) (o : List Out),
+    pre.length = d → nested d mid = true →
+    ∃ l' o', prun ⟨pre ++ x :: rest, l, o⟩ mid = ⟨x :: rest, l', o'⟩
+  | [], d, pre, x, rest, l, o, hd, hn => by
+    simp only [nested, beq_iff_eq] at hn
+    subst hn
+    have : pre = [] := List.length_eq_zero_iff.mp hd
+    subst this
+    exact ⟨l, o, rfl⟩
+  | .encJson p j :: r, d, pre, x, rest, l, o, hd, hn => by
+    simp only [nested] at hn
+    obtain ⟨l', o', e⟩ := prun_nested r (d + 1) (pureJson p j :: pre) x rest l o (by simp [hd]) hn
+    exact ⟨l', o', by simpa [prun, pstep] using e⟩
+  | .encConsole p j :: r, d, pre, x, rest, l, o, hd, hn => by
+    simp only [nested] at hn
+    obtain ⟨l', o', e⟩ := prun_nested r (d + 1) (pureConsole p j :: pre) x rest l o (by simp [hd]) hn
+    exact ⟨l', o', by simpa [prun, pstep] using e⟩
+  | .deliver i :: r, d, pre, x, rest, l, o, hd, hn => by
+    simp only [nested, Bool.and_eq_true, decide_eq_true_eq] at hn
+    obtain ⟨hi, hn⟩ := hn
+    have hlt : i < pre.length := by omega
+    have hget : (pre ++ x :: rest)[i]? = some pre[i] := by
+      rw [List.getElem?_append_left hlt]; simp
+    obtain ⟨l', o', e⟩ := prun_nested r (d - 1) (pre.eraseIdx i) x rest l (Out.line pre[i] :: o)
+      (by rw [List.length_eraseIdx]; simp [hlt]; omega) hn
+    refine ⟨l', o', ?_⟩
+    simp only [prun, List.foldl_cons, pstep, hget]
+    rw [List.eraseIdx_append_of_lt_length hlt]
+    exact e
+  | .withClone p f :: r, d, pre, x, rest, l, o, hd, hn => by
+    simp only [nested] at hn
+    obtain ⟨l', o', e⟩ := prun_nested r d pre x rest _ _ hd hn
+    exact ⟨l', o', by simpa [prun, pstep] using e⟩
+  | .peek i :: r, d, pre, x, rest, l, o, hd, hn => by
+    simp only [nested] at hn
+    cases hl : l[i]? with
+    | none =>
+      obtain ⟨l', o', e⟩ := prun_nested r d pre x rest l o hd hn
+      exact ⟨l', o', by simpa [prun, pstep, hl] using e⟩
+    | some v =>
+      obtain ⟨l', o', e⟩ := prun_nested r d pre x rest l (Out.line v :: o) hd hn
+      exact ⟨l', o', by simpa [prun, pstep, hl] using e⟩
+  | .check en c a eo w :: r, d, pre, x, rest, l, o, hd, hn => by
+    simp only [nested] at hn
+    cases w with
+    | false =>
+      obtain ⟨l', o', e⟩ := prun_nested r d pre x rest l o hd hn
+      exact ⟨l', o', by simpa [prun, pstep] using e⟩
+    | true =>
+      obtain ⟨l', o', e⟩ := prun_nested r d pre x rest l _ hd hn
+      exact ⟨l', o', by simpa [prun, pstep] using e⟩
+  | .errElem z en :: r, d, pre, x, rest, l, o, hd, hn => by
+    simp only [nested] at hn
+    obtain ⟨l', o', e⟩ := prun_nested r d pre x rest l _ hd hn
+    exact ⟨l', o', by simpa [prun, pstep] using e⟩
+  | .capture a f :: r, d, pre, x, rest, l, o, hd, hn => by
+    simp only [nested] at hn
+    obtain ⟨l', o', e⟩ := prun_nested r d pre x rest l _ hd hn
+    exact ⟨l', o', by simpa [prun, pstep] using e⟩
+  | .scratch b :: r, d, pre, x, rest, l, o, hd, hn => by
+    simp only [nested] at hn
+    obtain ⟨l', o', e⟩ := prun_nested r d pre x rest l _ hd hn
+    exact ⟨l', o', by simpa [prun, pstep] using e⟩
+  | .ctxPanic p j :: r, d, pre, x, rest, l, o, hd, hn => by
+    simp only [nested] at hn
+    obtain ⟨l', o', e⟩ := prun_nested r d pre x rest l o hd hn
+    exact ⟨l', o', by simpa [prun, pstep] using e⟩
+  | .gc k :: r, d, pre, x, rest, l, o, hd, hn => by
+    simp only [nested] at hn
+    obtain ⟨l', o', e⟩ := prun_nested r d pre x rest l o hd hn
+    exact ⟨l', o', by simpa [prun, pstep] using e⟩
+
+theorem prun_append (s : PS) (a b : List Op) : prun s (a ++ b) = prun (prun s a) b := by
+  simp [prun, List.foldl_append]
+
+theorem putJson_mem (c : Code) (h : H) (o : JsonObj) : (putJson c h o).mem = h.mem := by
+  unfold putJson; cases o.reflectBuf <;> rfl
+
 end ZapVerif.Pools
